@@ -21,6 +21,12 @@ fn main() {
             if args.len() < 3 { usage(); }
             let p = props.iter().find(|p| p.id == args[2]).unwrap_or_else(|| usage());
             let f = p.child.unwrap_or_else(|| usage());
+            // a child that does not return is abandoned by the parent's watchdog; make sure it dies too
+            std::thread::spawn(|| {
+                let limit = std::env::var("VERIF_CASE_TIMEOUT_S").ok().and_then(|s| s.parse().ok()).unwrap_or(120u64);
+                std::thread::sleep(std::time::Duration::from_secs(limit + 5));
+                std::process::exit(3);
+            });
             println!("{}", f(&args[3..]));
         }
         "run" => {
